@@ -4,6 +4,7 @@ Status: the per-entry and whole-log soundness statements are kept at full streng
 `def … : Prop` (`C01_sound_statement`); what is proved so far is listed below.
 -/
 import Gittuf.Spec.C01
+import Gittuf.Props.Witness
 namespace Gittuf
 namespace World
 
